@@ -265,6 +265,10 @@ func main() {
 		os.Exit(cmdCheck(os.Args[2:]))
 	case "vc":
 		os.Exit(cmdVC(os.Args[2:]))
+	case "externs":
+		os.Exit(cmdExterns(os.Args[2:]))
+	case "sweep":
+		os.Exit(cmdSweep(os.Args[2:]))
 	case "list":
 		os.Exit(cmdList(os.Args[2:]))
 	default:
@@ -428,6 +432,20 @@ func cmdCheck(args []string) int {
 			keys = append(keys, k)
 		}
 	}
+	filter := func(o *Obligation) bool { return o.hasTag(*prop) }
+	if *prop == "C20" {
+		// the frame sweep: every function of the swept packages, written contract or not
+		have := map[string]bool{}
+		for _, k := range keys {
+			have[k] = true
+		}
+		for _, k := range s.sweepKeys() {
+			if !have[k] {
+				keys = append(keys, k)
+			}
+		}
+		filter = func(o *Obligation) bool { return o.hasTag("C20") || isFrameObl(o) }
+	}
 	sort.Strings(keys)
 	if len(keys) == 0 {
 		fmt.Fprintf(os.Stderr, "govc: engine error: no function under contract for %s\n", *prop)
@@ -435,12 +453,15 @@ func cmdCheck(args []string) int {
 	}
 	var vcs []*FuncVC
 	for _, k := range keys {
-		vcs = append(vcs, genVC(s.P, s.C, s.S, k, s.Pure))
+		if _, ok := s.C.Funcs[k]; ok {
+			vcs = append(vcs, genVC(s.P, s.C, s.S, k, s.Pure))
+		} else {
+			vcs = append(vcs, s.genSweepVC(k))
+		}
 	}
 	dir, _ := os.MkdirTemp("", "govc-q")
 	defer os.RemoveAll(dir)
-	filter := func(o *Obligation) bool { return o.hasTag(*prop) }
-	dischargeAll(dir, s.decls, vcs, filter, timeout, 6)
+	dischargeAll(dir, s.decls, vcs, filter, timeout, 14)
 	return report(s, *prop, *tier, seed, vcs, filter, t0, dir, timeout)
 }
 
